@@ -336,9 +336,11 @@ func engineFaults(r *report.Run, l *sim.Lock, st *step, fork int, refPost *refsp
 		total *= 3
 	}
 	wantPayload := refssz.Serialize(l.Sp.T(refspec.PayloadTypeName(fork)), sb.Message.Body.ExecutionPayload.V(fork))
-	for code := 0; code < total; code++ {
+	// the all-valid combination comes first AND once more after all the refused ones: an approved run right
+	// after refused runs of the same block is still the undisturbed one
+	for code := 0; code <= total; code++ {
 		var v [3]int
-		c := code
+		c := code % total
 		if callsPerFork == 3 {
 			v[0], v[1], v[2] = c%3, (c/3)%3, c/9
 		} else {
@@ -353,6 +355,31 @@ func engineFaults(r *report.Run, l *sim.Lock, st *step, fork int, refPost *refsp
 		if panicked {
 			return report.Failf("engine/panic", "%s: %v", desc, err)
 		}
+		// whatever the engine was asked — in a fault run too, up to the query that failed — is about THIS block
+		checkCalls := func(calls []seen) *report.Failure {
+			for _, cl := range calls {
+				if !bytes.Equal(cl.payload, wantPayload) {
+					return report.Failf("engine/wrong-payload-shown", "%s: %s was shown a payload that is not the block body's", desc, cl.call)
+				}
+				if fork >= refspec.Deneb && cl.call != "IsValidVersionedHashes" && cl.parent != sb.Message.ParentRoot {
+					return report.Failf("engine/wrong-parent-root-shown", "%s: %s was shown parent beacon root %x, the block's parent root is %x", desc, cl.call, cl.parent, sb.Message.ParentRoot)
+				}
+				if cl.call == "IsValidVersionedHashes" {
+					if len(cl.hashes) != len(sb.Message.Body.BlobCommitments) {
+						return report.Failf("engine/wrong-versioned-hashes", "%s: %d versioned hashes for %d commitments", desc, len(cl.hashes), len(sb.Message.Body.BlobCommitments))
+					}
+					for i, cm := range sb.Message.Body.BlobCommitments {
+						if cl.hashes[i] != refspec.VersionedHash(cm) {
+							return report.Failf("engine/wrong-versioned-hashes", "%s: versioned hash %d is not 0x01||sha256(commitment)[1:]", desc, i)
+						}
+					}
+					if len(cl.hashes) > 0 {
+						r.Hit("versioned-hashes-nonempty")
+					}
+				}
+			}
+			return nil
+		}
 		allValid := v == [3]int{}
 		if !allValid {
 			if err == nil {
@@ -360,6 +387,10 @@ func engineFaults(r *report.Run, l *sim.Lock, st *step, fork int, refPost *refsp
 			}
 			if eng.flagWithErr {
 				r.Hit("engine-error-with-verdict-flag-set:" + forkName)
+			}
+			if f := checkCalls(eng.calls); f != nil {
+				f.Msg += " (in a run that the engine then refused)"
+				return f
 			}
 			// the error must come from the payload processing, not from the state-root comparison at the end
 			// (a transition that skipped the engine would leave a state whose root does not match, and "fail" for that reason only)
@@ -408,26 +439,8 @@ func engineFaults(r *report.Run, l *sim.Lock, st *step, fork int, refPost *refsp
 		if len(eng.calls) != callsPerFork {
 			return report.Failf("engine/calls", "%s: engine saw %d calls, expected %d", desc, len(eng.calls), callsPerFork)
 		}
-		for _, cl := range eng.calls {
-			if !bytes.Equal(cl.payload, wantPayload) {
-				return report.Failf("engine/wrong-payload-shown", "%s: %s was shown a payload that is not the block body's", desc, cl.call)
-			}
-			if fork >= refspec.Deneb && cl.call != "IsValidVersionedHashes" && cl.parent != sb.Message.ParentRoot {
-				return report.Failf("engine/wrong-parent-root-shown", "%s: %s was shown parent beacon root %x, the block's parent root is %x", desc, cl.call, cl.parent, sb.Message.ParentRoot)
-			}
-			if cl.call == "IsValidVersionedHashes" {
-				if len(cl.hashes) != len(sb.Message.Body.BlobCommitments) {
-					return report.Failf("engine/wrong-versioned-hashes", "%s: %d versioned hashes for %d commitments", desc, len(cl.hashes), len(sb.Message.Body.BlobCommitments))
-				}
-				for i, cm := range sb.Message.Body.BlobCommitments {
-					if cl.hashes[i] != refspec.VersionedHash(cm) {
-						return report.Failf("engine/wrong-versioned-hashes", "%s: versioned hash %d is not 0x01||sha256(commitment)[1:]", desc, i)
-					}
-				}
-				if len(cl.hashes) > 0 {
-					r.Hit("versioned-hashes-nonempty")
-				}
-			}
+		if f := checkCalls(eng.calls); f != nil {
+			return f
 		}
 		r.NonTrivial(fmt.Sprintf("engine|%s|all-valid", forkName))
 		r.Hit("engine-all-valid:" + forkName)
